@@ -80,6 +80,10 @@ descriptorLoop:
 	if !found {
 	descriptorLoop2:
 		for _, descriptor := range details.Descriptors {
+			if descriptor.TypeFn != nil {
+				// Overloads with a type function have no argument type list, they either match exactly or not at all.
+				continue
+			}
 			argTypes := argumentTypes
 			if descriptor.Strict {
 				argTypes = nonNullableArgumentTypes
